@@ -330,10 +330,11 @@ const (
 type answer struct {
 	Name     string
 	Kind     string
-	NeedsAnn bool                   // only meaningful when the request carries annotations
-	Payload  func(v reqView) []byte // envelope path: payload to sign instead of the request's
-	Mode     string                 // every other deviation
-	Note     string                 // for the evidence
+	NeedsAnn bool                      // only meaningful when the request carries annotations
+	Payload  func(v reqView) []byte    // envelope path: payload to sign instead of the request's
+	Mode     string                    // every other deviation
+	Spell    func(canon string) string // raw path: describe-key spells its (true) key spec this way; everything else honest
+	Note     string                    // for the evidence
 }
 
 func mod(f func(v reqView, d *dparts)) func(v reqView) []byte {
@@ -474,6 +475,52 @@ func rawAnswers() []answer {
 		{Name: "describe-key-unknown-spec", Kind: kAdv, Mode: "dk-unknown-spec"},
 		{Name: "describe-key-empty-spec", Kind: kAdv, Mode: "dk-empty-spec"},
 		{Name: "describe-key-lowercase-spec", Kind: kAdv, Mode: "dk-lower-spec"},
+		// near-canonical spellings of the TRUE key spec (hand-labelled: none of them is one of the six key spec names,
+		// so by the statement they are undecodable and signing must fail); the plugin is honest otherwise
+		{Name: "describe-key-spec-leading-zero", Kind: kAdv, Mode: "dk-spell", Spell: func(c string) string { return strings.Replace(c, "-", "-0", 1) }},
+		{Name: "describe-key-spec-leading-zeros", Kind: kAdv, Mode: "dk-spell", Spell: func(c string) string { return strings.Replace(c, "-", "-000", 1) }},
+		{Name: "describe-key-spec-plus-sign", Kind: kAdv, Mode: "dk-spell", Spell: func(c string) string { return strings.Replace(c, "-", "-+", 1) }},
+		{Name: "describe-key-spec-double-dash", Kind: kAdv, Mode: "dk-spell", Spell: func(c string) string { return strings.Replace(c, "-", "--", 1) }},
+		{Name: "describe-key-spec-leading-blank", Kind: kAdv, Mode: "dk-spell", Spell: func(c string) string { return " " + c }},
+		{Name: "describe-key-spec-trailing-blank", Kind: kAdv, Mode: "dk-spell", Spell: func(c string) string { return c + " " }},
+		{Name: "describe-key-spec-trailing-newline", Kind: kAdv, Mode: "dk-spell", Spell: func(c string) string { return c + "\n" }},
+		{Name: "describe-key-spec-trailing-nul", Kind: kAdv, Mode: "dk-spell", Spell: func(c string) string { return c + "\x00" }},
+		{Name: "describe-key-spec-blank-after-dash", Kind: kAdv, Mode: "dk-spell", Spell: func(c string) string { return strings.Replace(c, "-", "- ", 1) }},
+		{Name: "describe-key-spec-blank-before-dash", Kind: kAdv, Mode: "dk-spell", Spell: func(c string) string { return strings.Replace(c, "-", " -", 1) }},
+		{Name: "describe-key-spec-underscore", Kind: kAdv, Mode: "dk-spell", Spell: func(c string) string { return strings.Replace(c, "-", "_", 1) }},
+		{Name: "describe-key-spec-no-dash", Kind: kAdv, Mode: "dk-spell", Spell: func(c string) string { return strings.Replace(c, "-", "", 1) }},
+		{Name: "describe-key-spec-blank-for-dash", Kind: kAdv, Mode: "dk-spell", Spell: func(c string) string { return strings.Replace(c, "-", " ", 1) }},
+		{Name: "describe-key-spec-decimal-point", Kind: kAdv, Mode: "dk-spell", Spell: func(c string) string { return c + ".0" }},
+		{Name: "describe-key-spec-exponent", Kind: kAdv, Mode: "dk-spell", Spell: func(c string) string { return c + "e0" }},
+		{Name: "describe-key-spec-digit-separator", Kind: kAdv, Mode: "dk-spell", Spell: func(c string) string { return c[:len(c)-2] + "_" + c[len(c)-2:] }},
+		{Name: "describe-key-spec-hexadecimal", Kind: kAdv, Mode: "dk-spell", Spell: func(c string) string {
+			i := strings.IndexByte(c, '-')
+			n, _ := strconv.Atoi(c[i+1:])
+			return c[:i+1] + "0x" + strconv.FormatInt(int64(n), 16)
+		}},
+		{Name: "describe-key-spec-fullwidth-digits", Kind: kAdv, Mode: "dk-spell", Spell: func(c string) string {
+			return strings.Map(func(r rune) rune {
+				if r >= '0' && r <= '9' {
+					return r - '0' + 0xFF10
+				}
+				return r
+			}, c)
+		}},
+		{Name: "describe-key-spec-title-case", Kind: kAdv, Mode: "dk-spell", Spell: func(c string) string { return c[:1] + strings.ToLower(c[1:]) }},
+		{Name: "describe-key-spec-long-type-name", Kind: kAdv, Mode: "dk-spell", Spell: func(c string) string {
+			if strings.HasPrefix(c, "EC-") {
+				return "ECDSA-" + c[3:]
+			}
+			return "RSASSA-PSS-" + c[4:]
+		}},
+		{Name: "describe-key-spec-curve-name", Kind: kAdv, Mode: "dk-spell", Spell: func(c string) string {
+			if strings.HasPrefix(c, "EC-") {
+				return "EC-P" + c[3:]
+			}
+			return "RSA-" + c[4:] + "-bit"
+		}},
+		{Name: "describe-key-spec-quoted", Kind: kAdv, Mode: "dk-spell", Spell: func(c string) string { return "\"" + c + "\"" }},
+		{Name: "describe-key-spec-twice", Kind: kAdv, Mode: "dk-spell", Spell: func(c string) string { return c + "," + c }},
 		{Name: "describe-key-other-type", Kind: kAdv, Mode: "dk-other-type", Note: "key spec of the other key type, signature by the real key"},
 		{Name: "describe-key-other-size/signed-with-real-hash", Kind: kAdv, Mode: "dk-other-size-real"},
 		{Name: "describe-key-other-size/signed-with-requested-hash", Kind: kAdv, Mode: "dk-other-size-req", Note: "the real key signs with the hash the request names"},
@@ -517,10 +564,12 @@ type plug struct {
 	a      *answer
 	entry  string
 
-	// log
-	calls        []string
-	delivered    bool // the deviation reached the library
-	dkCalled     bool
+	// log of the current call (reset by begin)
+	calls     []string
+	delivered bool // the deviation reached the library
+	dkCalled  bool // describe-key was asked during the current call
+	// the most recent describe-key answer the library obtained on this signer (in this call or an earlier one)
+	dkHas        bool
 	dkID         string
 	dkSpec       fw.KeySpec
 	gsCalled     bool
@@ -530,6 +579,16 @@ type plug struct {
 	geReqType    string
 	geEcho       string
 	harnessPanic string
+}
+
+// begin starts the next call of a history on the same plugin object: the answer the
+// plugin is going to give may change, the per-call log starts empty.
+func (p *plug) begin(a *answer, entry string) {
+	p.a, p.entry = a, entry
+	p.calls, p.delivered = nil, false
+	p.dkCalled = false
+	p.gsCalled, p.gsID, p.gsChain = false, "", nil
+	p.geCalled, p.geReqType, p.geEcho = false, "", ""
 }
 
 func (p *plug) guard() func() {
@@ -581,6 +640,8 @@ func (p *plug) DescribeKey(_ context.Context, req *fw.DescribeKeyRequest) (*fw.D
 			resp.KeySpec = ""
 		case "dk-lower-spec":
 			resp.KeySpec = fw.KeySpec(strings.ToLower(string(p.w.FwSpec)))
+		case "dk-spell":
+			resp.KeySpec = fw.KeySpec(p.a.Spell(string(p.w.FwSpec)))
 		case "dk-other-type":
 			resp.KeySpec = otherTypeSpec[p.w.Spec]
 		case "dk-other-size-real", "dk-other-size-req":
@@ -598,7 +659,7 @@ func (p *plug) DescribeKey(_ context.Context, req *fw.DescribeKeyRequest) (*fw.D
 			p.delivered = true
 		}
 	}
-	p.dkCalled, p.dkID, p.dkSpec = true, resp.KeyID, resp.KeySpec
+	p.dkCalled, p.dkHas, p.dkID, p.dkSpec = true, true, resp.KeyID, resp.KeySpec
 	return resp, nil
 }
 
@@ -979,6 +1040,43 @@ func (c caseT) String() string {
 	return fmt.Sprintf("%s|%s|%s|%s|%s|%s", c.Family, c.Spec, short(c.Format), c.Desc, c.Entry, c.Answer)
 }
 
+// step is one signing call of a history; histT is a history of calls on ONE
+// PluginSigner (and one plugin object, whose answers may change from call to call).
+// A single call on a fresh signer is the history of length 1. This is the replay case.
+type step struct {
+	Entry  string `json:"entry"`
+	Answer string `json:"answer"`
+}
+
+type histT struct {
+	Family string `json:"family"`
+	Spec   string `json:"key_spec"`
+	Format string `json:"format"`
+	Desc   string `json:"descriptor"`
+	Shape  string `json:"shape"` // single | twice | honest-first | honest-last | entry-switch
+	Calls  []step `json:"calls"`
+}
+
+func (h histT) call(i int) caseT {
+	return caseT{Family: h.Family, Spec: h.Spec, Format: h.Format, Desc: h.Desc, Entry: h.Calls[i].Entry, Answer: h.Calls[i].Answer}
+}
+
+func (h histT) String() string {
+	s := fmt.Sprintf("%s|%s|%s|%s|%s", h.Family, h.Spec, short(h.Format), h.Desc, h.Shape)
+	for _, c := range h.Calls {
+		s += "|" + c.Entry + ":" + c.Answer
+	}
+	return s
+}
+
+type histResult struct {
+	h     histT
+	calls []result
+	viols []viol // history level (aliasing of returned values)
+	infra string
+	skip  bool // not run: internal deadline
+}
+
 func short(f string) string {
 	if f == forge.JWS {
 		return "jws"
@@ -1036,7 +1134,7 @@ func wanted(c caseT, p *plug, genAlg digest.Algorithm) want {
 		w.Digests = []string{string(genAlg.FromBytes(blobContent))}
 		return w
 	}
-	if h, ok := specHash[p.dkSpec]; ok && p.dkCalled {
+	if h, ok := specHash[p.dkSpec]; ok && p.dkHas {
 		w.Digests = []string{string(hashDigestAlg[h].FromBytes(blobContent))}
 	} else {
 		for _, a := range []digest.Algorithm{digest.SHA256, digest.SHA384, digest.SHA512} {
@@ -1058,8 +1156,17 @@ func judge(c caseT, p *plug, genAlg digest.Algorithm, sig []byte, info *signatur
 		add("requested-other-envelope-type-than-the-caller")
 	}
 	if c.Family == famRaw {
-		if p.dkCalled && p.dkID != keyID {
-			add("accepted-wrong-key-id:describe-key")
+		// the key description the library relies on is the most recent describe-key answer it obtained on
+		// this signer object (in this call or, if it remembers answers, in an earlier call of the history)
+		if !p.dkHas {
+			add("returned-signature-without-a-key-description")
+		} else {
+			if p.dkID != keyID {
+				add("accepted-wrong-key-id:describe-key")
+			}
+			if _, canonical := specHash[p.dkSpec]; !canonical {
+				add("accepted-undecodable-key-spec") // not one of the six key spec names
+			}
 		}
 		if p.gsCalled && p.gsID != keyID {
 			add("accepted-wrong-key-id:generate-signature")
@@ -1104,7 +1211,7 @@ func judge(c caseT, p *plug, genAlg digest.Algorithm, sig []byte, info *signatur
 			}
 		}
 		leafSpec := specOfKey(ref.Leaf.PublicKey)
-		if p.dkSpec != leafSpec {
+		if p.dkHas && p.dkSpec != leafSpec {
 			add("described-key-spec-inconsistent-with-signing-key")
 		}
 		if specAlg[leafSpec] != ref.Alg {
@@ -1157,24 +1264,64 @@ func firstLine(s string, n int) string {
 	return s
 }
 
-func runCase(c caseT, worlds map[string]*world, answers map[string]*answer) (res result) {
-	res.c = c
-	a := answers[c.Family+"/"+c.Answer]
-	w := worlds[c.Spec]
-	if a == nil || w == nil {
-		res.infra = fmt.Sprintf("unknown answer or key spec in case %v", c)
+// runHistory runs the calls of h one after the other on one PluginSigner. Every call
+// is judged exactly like a call on a fresh signer (the statement speaks about every
+// call); what earlier calls returned is kept and looked at again afterwards.
+func runHistory(h histT, worlds map[string]*world, answers map[string]*answer) (hr histResult) {
+	hr.h = h
+	w := worlds[h.Spec]
+	if w == nil || len(h.Calls) == 0 {
+		hr.infra = fmt.Sprintf("unknown key spec or empty history %v", h)
 		return
 	}
+	p := &plug{w: w, family: h.Family}
+	ps, err := signer.NewPluginSigner(p, keyID, map[string]string{"cfg": "1"})
+	if err != nil {
+		hr.infra = "NewPluginSigner: " + err.Error()
+		return
+	}
+	type kept struct {
+		i        int
+		sig, cpy []byte
+	}
+	var keep []kept
+	for i := range h.Calls {
+		c := h.call(i)
+		a := answers[c.Family+"/"+c.Answer]
+		if a == nil {
+			hr.infra = fmt.Sprintf("unknown answer in %v", h)
+			return
+		}
+		res, sig := runCall(c, a, p, ps, i, len(h.Calls))
+		if res.infra != "" {
+			hr.infra = res.infra
+			return
+		}
+		hr.calls = append(hr.calls, res)
+		if sig != nil {
+			keep = append(keep, kept{i, sig, append([]byte(nil), sig...)})
+		}
+	}
+	for _, k := range keep {
+		if k.i < len(h.Calls)-1 && !bytes.Equal(k.sig, k.cpy) {
+			hr.viols = append(hr.viols, viol{h.Family + "/returned-signature-changed-by-a-later-call",
+				fmt.Sprintf("the signature returned by call %d of history %v has other bytes after the later calls", k.i+1, h)})
+		}
+	}
+	return
+}
+
+func runCall(c caseT, a *answer, p *plug, ps *signer.PluginSigner, idx, n int) (res result, retSig []byte) {
+	res.c = c
 	res.kind = a.Kind
 	if c.Entry != "Sign" && c.Entry != "SignBlob" && c.Entry != "SignBlobDirect" {
 		res.infra = fmt.Sprintf("unknown entry point in case %v", c)
 		return
 	}
-	p := &plug{w: w, family: c.Family, a: a, entry: c.Entry}
-	ps, err := signer.NewPluginSigner(p, keyID, map[string]string{"cfg": "1"})
-	if err != nil {
-		res.infra = "NewPluginSigner: " + err.Error()
-		return
+	p.begin(a, c.Entry)
+	where := ""
+	if n > 1 {
+		where = fmt.Sprintf("call %d of %d on one PluginSigner: ", idx+1, n)
 	}
 	var ann map[string]string
 	if c.Desc == "annotated" {
@@ -1208,8 +1355,6 @@ func runCase(c caseT, worlds map[string]*world, answers map[string]*answer) (res
 				return ocispec.Descriptor{MediaType: mtBlob, Digest: alg.FromBytes(blobContent), Size: int64(len(blobContent)), Annotations: ann}, nil
 			}
 			sig, info, serr = ps.SignBlob(ctx, gen, opts)
-		default:
-			panic("unknown entry point " + c.Entry)
 		}
 	}()
 	res.calls = strings.Join(p.calls, ",")
@@ -1226,18 +1371,19 @@ func runCase(c caseT, worlds map[string]*world, answers map[string]*answer) (res
 		}
 		res.class = "panic"
 		res.viols = append(res.viols, viol{c.Family + "/panic:" + a.Name,
-			fmt.Sprintf("%s panicked on plugin answer %q (%s, %s, %s descriptor): %v :: at %s", c.Entry, a.Name, c.Spec, short(c.Format), c.Desc, panicked, strings.ReplaceAll(firstFrames(stack), "\n", " < "))})
+			fmt.Sprintf("%s%s panicked on plugin answer %q (%s, %s, %s descriptor): %v :: at %s", where, c.Entry, a.Name, c.Spec, short(c.Format), c.Desc, panicked, strings.ReplaceAll(firstFrames(stack), "\n", " < "))})
 		return
 	}
 	if serr != nil {
 		res.class = "rejected"
 		res.errText = firstLine(serr.Error(), 160)
 		if sig != nil || info != nil {
-			res.viols = append(res.viols, viol{c.Family + "/signature-returned-together-with-an-error", fmt.Sprintf("%s returned an error AND a signature/signerInfo for answer %q", c.Entry, a.Name)})
+			res.viols = append(res.viols, viol{c.Family + "/signature-returned-together-with-an-error", fmt.Sprintf("%s%s returned an error AND a signature/signerInfo for answer %q", where, c.Entry, a.Name)})
 		}
 		return
 	}
 	res.nontrivial = true
+	retSig = sig
 	reasons, amb := judge(c, p, genAlg, sig, info)
 	res.class = "returned"
 	if amb {
@@ -1245,7 +1391,7 @@ func runCase(c caseT, worlds map[string]*world, answers map[string]*answer) (res
 	}
 	for _, why := range reasons {
 		res.viols = append(res.viols, viol{c.Family + "/" + why,
-			fmt.Sprintf("%s returned a signature for plugin answer %q (%s, %s, %s descriptor): %s", c.Entry, a.Name, c.Spec, short(c.Format), c.Desc, why)})
+			fmt.Sprintf("%s%s returned a signature for plugin answer %q (%s, %s, %s descriptor; plugin calls in this call: [%s]): %s", where, c.Entry, a.Name, c.Spec, short(c.Format), c.Desc, res.calls, why)})
 	}
 	return
 }
@@ -1269,8 +1415,8 @@ func firstFrames(stack string) string {
 	return strings.Join(keep, "\n")
 }
 
-func applicable(a *answer, c caseT) bool {
-	if a.NeedsAnn && c.Desc != "annotated" {
+func applicable(a *answer, desc string) bool {
+	if a.NeedsAnn && desc != "annotated" {
 		return false
 	}
 	return true
@@ -1278,13 +1424,15 @@ func applicable(a *answer, c caseT) bool {
 
 func main() {
 	r := hx.New("C18")
-	r.Rule = "every element of (plugin path x key spec x envelope format x request descriptor x entry point x scripted plugin answer) is run once through the real PluginSigner; non-trivial = distinct cases in which the deviating answer was really delivered to the library (the scripted method carrying it was invoked) or a signature was returned (the oracle is evaluated there)"
+	r.Rule = "every element of (plugin path x key spec x envelope format x request descriptor x entry point x scripted plugin answer) is run once through the real PluginSigner on a fresh signer, and again inside every two-call history on ONE PluginSigner/plugin object (same answer twice; honest call first; honest call last; same answer through two entry points), every call judged like a call on a fresh signer; non-trivial = distinct cases in which the deviating answer was really delivered to the library (the scripted method carrying it was invoked) or a signature was returned (the oracle is evaluated there)"
 	r.Assumptions = []string{
 		"RSA-PSS/ECDSA/SHA-2 are sound; the plugin holds real keys, forgery without a key is not attempted",
 		"oracle signature check is lib/refsig (standard library + cbor decoding only); the payload is decoded by a strict token-level decoder (exact key spelling, unknown members rejected except the known descriptor members urls/data/platform/artifactType, duplicates = ambiguous = not judged)",
 		"annotations added by the plugin are allowed (signer/plugin.go: 'Plugins may append additional annotations'); known-but-unrequested descriptor members and an inconsistent signingAlgorithm response field are recorded, not judged",
 		"a Go plugin method returning (nil, nil) is outside the stated alphabet of plugin answers: recorded only",
 		"for SignBlob the requested digest is the blob's digest under the algorithm bound to the key spec the plugin described",
+		"a key spec string other than the six names RSA-2048/3072/4096, EC-256/384/521 is undecodable (hand-labelled near-canonical spellings); the key description the library relies on is the most recent describe-key answer it obtained on that signer object, so remembering an answer that was checked is not a violation, relying on one that was rejected is",
+		"histories have length 2; longer histories and concurrent calls on one signer are not explored",
 	}
 
 	envA, rawA := envelopeAnswers(), rawAnswers()
@@ -1307,36 +1455,52 @@ func main() {
 		}
 	}
 
-	report := func(res result, verbose bool) {
-		if res.infra != "" {
-			r.Infra("%s", res.infra)
+	report := func(hr histResult, verbose bool) {
+		if hr.infra != "" {
+			r.Infra("%s", hr.infra)
 			return
 		}
-		r.Eval(1)
-		r.Outcome(res.c.Family + "/" + res.c.Answer + ":" + res.class)
-		if res.nontrivial {
-			r.Nontrivial(res.c.String())
+		nontrivial := false
+		var classes []string
+		for _, res := range hr.calls {
+			r.Eval(1)
+			nontrivial = nontrivial || res.nontrivial
+			classes = append(classes, res.class)
+			for _, v := range res.viols {
+				r.Violation(v.key, v.what, hr.h)
+			}
 		}
-		for _, v := range res.viols {
-			r.Violation(v.key, v.what, res.c)
+		for _, v := range hr.viols {
+			r.Violation(v.key, v.what, hr.h)
+		}
+		if hr.h.Shape == "single" {
+			r.Outcome(hr.h.Family + "/" + hr.h.Calls[0].Answer + ":" + classes[0])
+		} else {
+			r.Outcome("history/" + hr.h.Family + "/" + hr.h.Shape + ":" + strings.Join(classes, "+"))
+		}
+		r.Trace(1)
+		if nontrivial {
+			r.Nontrivial(hr.h.String())
 		}
 		if verbose {
-			fmt.Printf("case %v: %s calls=[%s] %s\n", res.c, res.class, res.calls, res.errText)
+			for i, res := range hr.calls {
+				fmt.Printf("history %v call %d: %s plugin-calls=[%s] %s\n", hr.h, i+1, res.class, res.calls, res.errText)
+			}
 		}
 	}
 
 	if r.Replay != "" {
-		var c caseT
-		if err := r.LoadReplay(&c); err != nil {
+		var h histT
+		if err := r.LoadReplay(&h); err != nil {
 			r.Infra("replay: %v", err)
 			r.Finish()
 		}
-		if _, ok := fwSpecs[c.Spec]; !ok {
-			r.Infra("replay: unknown key spec %q", c.Spec)
+		if _, ok := fwSpecs[h.Spec]; !ok {
+			r.Infra("replay: unknown key spec %q", h.Spec)
 			r.Finish()
 		}
-		need(c.Spec)
-		report(runCase(c, worlds, answers), true)
+		need(h.Spec)
+		report(runHistory(h, worlds, answers), true)
 		r.Finish()
 	}
 
@@ -1347,17 +1511,48 @@ func main() {
 	}
 	descs := []string{"plain", "annotated"}
 	entries := []string{"Sign", "SignBlob", "SignBlobDirect"}
-	var cases []caseT
-	addAll := func(spec, format, desc, entry string) {
+	switches := [][2]string{{"Sign", "SignBlob"}, {"SignBlob", "Sign"}, {"Sign", "SignBlobDirect"}, {"SignBlobDirect", "SignBlob"}}
+	honest := map[string]string{famEnvelope: "honest-forge", famRaw: "honest"}
+	var singles, histories []histT
+	// singles: one call on a fresh signer
+	addSingles := func(spec, format, desc, entry string) {
 		for _, fam := range []string{famEnvelope, famRaw} {
 			list := envA
 			if fam == famRaw {
 				list = rawA
 			}
 			for i := range list {
-				c := caseT{Family: fam, Spec: spec, Format: format, Desc: desc, Entry: entry, Answer: list[i].Name}
-				if applicable(&list[i], c) {
-					cases = append(cases, c)
+				if applicable(&list[i], desc) {
+					singles = append(singles, histT{Family: fam, Spec: spec, Format: format, Desc: desc, Shape: "single", Calls: []step{{entry, list[i].Name}}})
+				}
+			}
+		}
+	}
+	// histories of two calls on ONE signer: the same answer twice; an honest call first; an honest call last;
+	// the same answer through two different entry points
+	addHistories := func(spec, format, desc string, ents []string, sw [][2]string) {
+		for _, fam := range []string{famEnvelope, famRaw} {
+			list := envA
+			if fam == famRaw {
+				list = rawA
+			}
+			for i := range list {
+				a := &list[i]
+				if !applicable(a, desc) || a.Kind == kBreach {
+					continue
+				}
+				mk := func(shape string, c ...step) {
+					histories = append(histories, histT{Family: fam, Spec: spec, Format: format, Desc: desc, Shape: shape, Calls: c})
+				}
+				for _, e := range ents {
+					mk("twice", step{e, a.Name}, step{e, a.Name})
+					if a.Kind != kControl {
+						mk("honest-first", step{e, honest[fam]}, step{e, a.Name})
+						mk("honest-last", step{e, a.Name}, step{e, honest[fam]})
+					}
+				}
+				for _, p := range sw {
+					mk("entry-switch", step{p[0], a.Name}, step{p[1], a.Name})
 				}
 			}
 		}
@@ -1366,38 +1561,78 @@ func main() {
 		for _, f := range forge.Formats {
 			for _, d := range descs {
 				for _, e := range entries {
-					addAll(s, f, d, e)
+					addSingles(s, f, d, e)
+				}
+				if r.Thorough() {
+					addHistories(s, f, d, entries, switches)
 				}
 			}
 		}
 	}
 	if !r.Thorough() {
 		// one RSA-4096 diagonal
-		addAll(pki.RSA4096, forge.JWS, "plain", "SignBlob")
-		addAll(pki.RSA4096, forge.COSE, "annotated", "Sign")
-		addAll(pki.RSA4096, forge.JWS, "annotated", "SignBlobDirect")
+		addSingles(pki.RSA4096, forge.JWS, "plain", "SignBlob")
+		addSingles(pki.RSA4096, forge.COSE, "annotated", "Sign")
+		addSingles(pki.RSA4096, forge.JWS, "annotated", "SignBlobDirect")
+		// histories: every shape and entry point on EC-256 (cheap) with the annotated descriptor (all answers
+		// apply to it), one diagonal element for each other key spec of the quick tier
+		for _, f := range forge.Formats {
+			addHistories(pki.EC256, f, "annotated", entries, switches)
+		}
+		addHistories(pki.RSA2048, forge.JWS, "annotated", []string{"Sign"}, switches[:1])
+		addHistories(pki.EC384, forge.COSE, "plain", []string{"SignBlob"}, switches[1:2])
+		addHistories(pki.RSA4096, forge.COSE, "plain", []string{"SignBlobDirect"}, switches[3:4])
 	}
+	all := append(append([]histT(nil), singles...), histories...)
 	// key material: sequentially, before anything runs in parallel
-	for _, c := range cases {
-		need(c.Spec)
+	for _, h := range all {
+		need(h.Spec)
+	}
+	if r.Thorough() {
+		r.SetDeadline(9 * time.Minute)
+	} else {
+		r.SetDeadline(35 * time.Second)
 	}
 
-	results := make([]result, len(cases))
-	r.Parallel(len(cases), func(i int) { results[i] = runCase(cases[i], worlds, answers) },
+	results := make([]histResult, len(all))
+	r.Parallel(len(all), func(i int) {
+		if r.Expired() {
+			results[i] = histResult{h: all[i], skip: true}
+			return
+		}
+		results[i] = runHistory(all[i], worlds, answers)
+	},
 		func(i int, v any, stack string) {
-			results[i] = result{c: cases[i], infra: fmt.Sprintf("harness panic in case %v: %v\n%s", cases[i], v, stack)}
+			results[i] = histResult{h: all[i], infra: fmt.Sprintf("harness panic in %v: %v\n%s", all[i], v, stack)}
 		})
 
 	// ---- report, in enumeration order (deterministic) ----
-	var controls, controlsOK int
+	var controls, controlsOK, skipped, ranSingles, ranHistories int
 	var failedControls []string
 	notJudged := map[string]bool{}
 	dump := os.Getenv("VERIF_C18_DUMP") != ""
-	for i, res := range results {
-		report(res, dump)
-		if res.infra != "" {
+	for i, hr := range results {
+		if hr.skip {
+			skipped++
 			continue
 		}
+		report(hr, dump)
+		if hr.infra != "" {
+			continue
+		}
+		if hr.h.Shape != "single" {
+			ranHistories++
+			if i%997 == 0 {
+				var cl []string
+				for _, res := range hr.calls {
+					cl = append(cl, res.class+" ["+res.calls+"]")
+				}
+				r.Sample(map[string]any{"history": hr.h, "results": cl})
+			}
+			continue
+		}
+		ranSingles++
+		res := hr.calls[0]
 		if res.kind == kControl {
 			controls++
 			if res.class == "returned" && len(res.viols) == 0 {
@@ -1416,6 +1651,9 @@ func main() {
 			r.Sample(map[string]any{"case": res.c, "answer_kind": res.kind, "plugin_calls": res.calls, "result": res.class, "error": res.errText})
 		}
 	}
+	if skipped > 0 {
+		r.Capped(fmt.Sprintf("internal deadline: %d of %d single calls and %d of %d two-call histories were run (singles first, enumeration order)", ranSingles, len(singles), ranHistories, len(histories)))
+	}
 	var nj []string
 	for k := range notJudged {
 		nj = append(nj, k)
@@ -1428,11 +1666,13 @@ func main() {
 	r.Extra["entry_points"] = entries
 	r.Extra["envelope_generator_answers"] = len(envA)
 	r.Extra["signature_generator_answers"] = len(rawA)
-	r.Extra["cases"] = len(cases)
+	r.Extra["single_calls"] = len(singles)
+	r.Extra["two_call_histories_on_one_signer"] = len(histories)
+	r.Extra["history_shapes"] = []string{"twice (same answer, same entry point)", "honest-first", "honest-last", "entry-switch " + fmt.Sprint(switches)}
 	r.Extra["positive_controls"] = controls
 	r.Extra["positive_controls_accepted"] = controlsOK
 	if !r.Thorough() {
-		r.Extra["quick_bound"] = "RSA-2048, EC-256, EC-384 full product plus an RSA-4096 diagonal (JWS/plain/SignBlob, COSE/annotated/Sign, JWS/annotated/SignBlobDirect)"
+		r.Extra["quick_bound"] = "RSA-2048, EC-256, EC-384 full product plus an RSA-4096 diagonal (JWS/plain/SignBlob, COSE/annotated/Sign, JWS/annotated/SignBlobDirect); two-call histories: all shapes on EC-256 x both formats x annotated descriptor, one entry point + one entry switch on RSA-2048/JWS, EC-384/COSE, RSA-4096/COSE"
 	}
 	if controls == 0 || controlsOK == 0 {
 		r.Infra("vacuous run: %d of %d positive controls (honest plugin answers) returned a signature", controlsOK, controls)
